@@ -87,6 +87,18 @@ pub fn gen(args: &Args) {
         w.emit(call_event(lat, -1_401_767, 0));
         lat += if thorough { 10_000 } else { 40_000 };
     }
+    // sequences: a call right after a related one (swapped coordinates, two diagonal points, a repeat, a mirror)
+    for _ in 0..(if thorough { 4000 } else { 600 }) {
+        let a = r.range(-890_000, 890_000);
+        let b = r.range(-890_000, 890_000);
+        w.emit(call_event(a, b, 0));
+        w.emit(call_event(b, a, 0));
+        w.emit(call_event(a, a, 0));
+        w.emit(call_event(b, b, 0));
+        w.emit(call_event(a, b, 0));
+        w.emit(call_event(a, -b, 0));
+        w.emit(call_event(-a, b, r.range(-420, 8848)));
+    }
     // symmetry pairs at micro-degree resolution
     let m = if thorough { 40000 } else { 4000 };
     for i in 0..m {
@@ -125,6 +137,30 @@ pub fn gen(args: &Args) {
             }
         }
     }
+    // the same calls made from several threads at once (a result must not depend on what other threads ask)
+    let n_thr = 6;
+    let per = if thorough { 4000 } else { 700 };
+    let mut handles = Vec::new();
+    for t in 0..n_thr {
+        let mut rr = Rng::new(seed ^ (0xC16C + t as u64));
+        handles.push(std::thread::spawn(move || {
+            let mut evs = Vec::new();
+            // each thread keeps returning to a few cities of its own, like a server answering different users
+            let cities: Vec<(i64, i64)> = (0..5).map(|_| (rr.range(-700_000, 700_000), rr.range(-1_800_000, 1_800_000))).collect();
+            for i in 0..per {
+                let (lat, lon) = if i % 3 == 0 { (rr.range(-890_000, 890_000), rr.range(-1_800_000, 1_800_000)) } else { cities[(rr.next() % 5) as usize] };
+                evs.push(call_event(lat, lon, 0));
+            }
+            evs
+        }));
+    }
+    let mut conc = 0;
+    for h in handles {
+        for e in h.join().unwrap_or_default() {
+            conc += 1;
+            w.emit(e);
+        }
+    }
     let k = w.finish();
-    println!("{}", json!({"events": k}));
+    println!("{}", json!({"events": k, "concurrent_calls": conc}));
 }
